@@ -312,7 +312,9 @@ func genC20Req(t *rapid.T) c20Req {
 		// a syntactically valid object that names the level more than once (in any spelling of the key encoding/json
 		// accepts), valid and invalid occurrences in either order: which occurrence counts is encoding/json's
 		// business, so invariants only - above all, a request that is answered 4xx has changed nothing
-		key := func(l string) string { return rapid.SampledFrom([]string{"level", "level", "LEVEL", "Level", "leveL"}).Draw(t, l) }
+		key := func(l string) string {
+			return rapid.SampledFrom([]string{"level", "level", "LEVEL", "Level", "leveL"}).Draw(t, l)
+		}
 		valid := func(l string) string {
 			b, _ := json.Marshal(rapid.SampledFrom([]string{"debug", "info", "warn", "error", "dpanic", "panic", "fatal", "ERROR", "Warn", ""}).Draw(t, l))
 			return string(b)
@@ -358,7 +360,9 @@ func (w *c20BrokenWriter) Write(p []byte) (int, error) {
 }
 
 func propC20HTTP(t *rapid.T) {
-	al := zap.NewAtomicLevelAt(zapcore.Level(rapid.IntRange(-1, 5).Draw(t, "initialLevel")))
+	// (an AtomicLevel may hold any of the 256 values - FatalLevel+1 silences a logger tree, DebugLevel-1 is a common
+	// trace level -; the endpoint reports whatever is in force)
+	al := zap.NewAtomicLevelAt(zapcore.Level(rapid.SampledFrom([]int{-1, 0, 1, 2, 3, 4, 5, -1, 0, 1, 2, 3, 4, 5, -2, 6, 7, 100, -128, 127}).Draw(t, "initialLevel")))
 	core, logs := observer.New(al)
 	live := zap.New(core).With(zap.Int("derived", 1)).Named("live")
 	n := rapid.IntRange(1, 8).Draw(t, "nRequests")
@@ -408,7 +412,7 @@ func propC20HTTP(t *rapid.T) {
 					failB("a request that names no valid level changed the level")
 				}
 			default:
-				if got < zapcore.DebugLevel || got > zapcore.FatalLevel {
+				if got != before && (got < zapcore.DebugLevel || got > zapcore.FatalLevel) {
 					failB("the level is now invalid")
 				}
 			}
@@ -423,15 +427,15 @@ func propC20HTTP(t *rapid.T) {
 			t.Fatalf("%s\nrequest %d: %s %s content-type %q body %q\nresponse %d %q\nlevel before %v after %v\nhistory: %s", fmt.Sprintf(f, a...), i, r.Method, r.Target, r.CType, r.Body, rr.Code, rr.Body.String(), before, after, strings.Join(hist, " | "))
 		}
 		var resp struct {
-			Level *zapcore.Level `json:"level"`
-			Error *string        `json:"error"`
+			Level *string `json:"level"`
+			Error *string `json:"error"`
 		}
 		if err := json.Unmarshal(rr.Body.Bytes(), &resp); err != nil {
 			fail("response body is not JSON: %v", err)
 		}
 		switch r.Method {
 		case "GET":
-			if rr.Code != 200 || after != before || resp.Level == nil || *resp.Level != before {
+			if rr.Code != 200 || after != before || resp.Level == nil || *resp.Level != before.String() {
 				fail("GET must answer 200 with the level in force and change nothing")
 			}
 		case "PUT":
@@ -439,7 +443,7 @@ func propC20HTTP(t *rapid.T) {
 				if after < zapcore.DebugLevel || after > zapcore.FatalLevel {
 					fail("PUT was accepted but the level is now invalid")
 				}
-				if resp.Level == nil || *resp.Level != after {
+				if resp.Level == nil || *resp.Level != after.String() {
 					fail("PUT 200 response does not report the level in force")
 				}
 				if r.known && (!r.accept || r.lvl != after) {
